@@ -714,11 +714,9 @@ def balanced_coq_run(tag, run_def, terms, nshards=16):
     k = max(1, min(nshards, len(terms)))
     size = (len(terms) + k - 1) // k
     order = sorted(range(len(terms)), key=lambda i: -len(terms[i]))
-    shards = [order[j::k] for j in range(k)]
-    # coq_run_cases cuts contiguous chunks of `size`: pad nothing, just lay the shards out one after the other and
-    # fix their length to `size` by moving the overflow of the round-robin deal to the shorter tail shards
-    flat = [i for sh in shards for i in sh]
-    perm = flat
+    # lay the round-robin hands out one after the other; coq_run_cases cuts contiguous chunks of `size`, which
+    # coincide with the hands up to one element
+    perm = [i for j in range(k) for i in order[j::k]]
     r = C.coq_run_cases(tag, IMPORTS, run_def, [terms[i] for i in perm], shard=size)
     out = [None] * len(terms)
     for pos, i in enumerate(perm):
